@@ -56,6 +56,27 @@ def _cylinder_denormal_hang():
     return bad, {"reproduce": code, "outcome": (r.stdout + r.stderr)[-300:]}
 
 
+def _near_vertex(cls, field):
+    """unit right triangle / unit tetrahedron, observer 2.5e-9 beside the vertex (1,0,0), perpendicular to the edge from the origin"""
+    def run():
+        import magpylib as magpy
+        pol = (0.3, -0.7, 0.5)
+        if cls == "Triangle":
+            src = magpy.misc.Triangle(vertices=[(0, 0, 0), (1, 0, 0), (0, 1, 0)], polarization=pol)
+        elif cls == "Tetrahedron":
+            src = magpy.magnet.Tetrahedron(vertices=[(0, 0, 0), (1, 0, 0), (0, 1, 0), (0, 0, 1)], polarization=pol)
+        else:
+            with warnings.catch_warnings():
+                warnings.simplefilter("ignore")
+                src = magpy.magnet.TriangularMesh.from_ConvexHull(points=[(0, 0, 0), (1, 0, 0), (0, 1, 0), (0, 0, 1)], polarization=pol)
+        obs = [1.0, 2.5e-9, 0.0]
+        with warnings.catch_warnings():
+            warnings.simplefilter("ignore")
+            v = getattr(magpy, "get" + field)(src, np.array(obs))
+        return (not bool(np.all(np.isfinite(v)))), {"class": cls, "observer": obs, "field": field, "value": np.asarray(v).tolist()}
+    return run
+
+
 def _dipole(magpy):
     return magpy.misc.Dipole(moment=(0.3, -0.2, 0.5))
 
@@ -65,27 +86,57 @@ def _sphere0(magpy):
 
 
 C16_MESHES = {
-    # a thin triangular prism (two base corners 0.05 apart) and a flat 5-point hull, each united with a copy of itself
-    # translated by (0.37, 0.21, 0.13) of its extent: the copies interpenetrate, check_selfintersecting says no
-    "prism": ([[-0.62132, 0.783557, -0.5], [0.836509, -0.547953, -0.5], [0.863622, -0.50414, -0.5], [-0.62132, 0.783557, 0.5], [0.836509, -0.547953, 0.5], [0.863622, -0.50414, 0.5]],
-              [[0, 2, 1], [3, 4, 5], [0, 1, 4], [0, 4, 3], [1, 2, 5], [1, 5, 4], [2, 0, 3], [2, 3, 5]]),
-    "hull": ([[-0.441059, -0.317278, -0.599131], [-0.731304, -0.182024, -0.603882], [0.093071, -0.630469, -0.195989], [0.172817, -0.67828, -0.372834], [0.62368, -0.536795, -0.078152]],
-             [[0, 4, 1], [0, 3, 1], [0, 3, 4], [2, 4, 1], [2, 3, 1], [2, 3, 4]]),
+    # Stella octangula: two regular tetrahedra, every edge of one crosses an edge of the other at its midpoint; the common part is an
+    # octahedron.  Each edge meets the other body's faces only ON their common edge: one signed volume is 0, np.sign(0) != +-1
+    "stella-octangula": ([[1, 1, 1], [1, -1, -1], [-1, 1, -1], [-1, -1, 1], [-1, -1, -1], [-1, 1, 1], [1, -1, 1], [1, 1, -1]],
+                         [[0, 1, 2], [0, 3, 1], [0, 2, 3], [1, 3, 2], [4, 5, 6], [4, 6, 7], [4, 7, 5], [5, 7, 6]], 1.0, True),
+    # two thin tetrahedra pointing at each other, tips overlapping by 0.2: the centroids of the crossing faces are 4/3 of their
+    # length apart, the ball query radius is 1.5 * (2/3 length) = 1 length: the pairs are never tested (r_factor=2 finds them)
+    "two-spikes": ([[-1.0, 0.1, 0.0], [-1.0, -0.05, 0.0866], [-1.0, -0.05, -0.0866], [0.1, 0.0, 0.0], [1.0, -0.1, 0.0], [1.0, 0.05, -0.0866], [1.0, 0.05, 0.0866], [-0.1, 0.0, 0.0]],
+                   [[0, 2, 1], [0, 1, 3], [1, 2, 3], [0, 3, 2], [4, 5, 6], [4, 7, 5], [5, 7, 6], [4, 6, 7]], 1.0, True),
+    # a thin spike through the interior of a face of the cube [-1,1]^3 — reported at this size, not when all numbers are micrometres
+    # (eps = 1e-6 is an absolute length)
+    "spike-box-micro": ([[-1, -1, -1], [-1, -1, 1], [-1, 1, -1], [-1, 1, 1], [1, -1, -1], [1, -1, 1], [1, 1, -1], [1, 1, 1],
+                         [2.5, 0.3, -0.2], [0.4, 0.33, -0.2], [0.4, 0.27, -0.17], [0.4, 0.27, -0.23]],
+                        [[0, 1, 3], [0, 3, 2], [4, 6, 7], [4, 7, 5], [0, 4, 5], [0, 5, 1], [2, 3, 7], [2, 7, 6], [0, 2, 6], [0, 6, 4], [1, 5, 7], [1, 7, 3],
+                         [8, 9, 10], [8, 10, 11], [8, 11, 9], [9, 11, 10]], 1e-6, True),
 }
 
 
-def _c16_interpenetrating(kind):
+def _c16_selfintersecting(kind):
     def run():
         import magpylib as magpy
-        v, f = (np.array(a) for a in C16_MESHES[kind])
-        shift = (v.max(axis=0) - v.min(axis=0)) * np.array([0.37, 0.21, 0.13])
-        v4, f4 = np.concatenate([v, v + shift]), np.concatenate([f, f + len(v)])
+        v, f, scale, expected = C16_MESHES[kind]
+        v, f = np.array(v, float) * scale, np.array(f)
         with warnings.catch_warnings():
             warnings.simplefilter("ignore")
-            m = magpy.magnet.TriangularMesh(vertices=v4, faces=f4, polarization=(0, 0, 1), check_disconnected="ignore", check_selfintersecting="ignore", reorient_faces="ignore")
+            m = magpy.magnet.TriangularMesh(vertices=v, faces=f, polarization=(0, 0, 1), check_disconnected="ignore", check_selfintersecting="ignore", reorient_faces="ignore")
             m.check_selfintersecting(mode="ignore")
-        return m.status_selfintersecting is not True, {"kind": kind, "vertices": v4.tolist(), "faces": f4.tolist(), "status_selfintersecting": m.status_selfintersecting}
+        return bool(m.status_selfintersecting) is not expected, {"kind": kind, "vertices": v.tolist(), "faces": f.tolist(), "status_selfintersecting": m.status_selfintersecting, "expected": expected}
     return run
+
+
+def _c16_valid_hull_flagged():
+    """a convex hull of 12 points on the unit sphere (closed, convex, not self-intersecting) with all numbers multiplied by 1000:
+    float32 noise of shared corners exceeds the absolute eps = 1e-6 and adjacent faces are reported as intersecting"""
+    import magpylib as magpy
+    from scipy.spatial import ConvexHull
+    out = []
+    for seed in range(8):
+        p = np.random.default_rng(seed).normal(size=(12, 3))
+        p /= np.linalg.norm(p, axis=1)[:, None]
+        f = ConvexHull(p).simplices
+        flags = []
+        for sc in (1.0, 1000.0):
+            with warnings.catch_warnings():
+                warnings.simplefilter("ignore")
+                m = magpy.magnet.TriangularMesh(vertices=p * sc, faces=f, polarization=(0, 0, 1), check_selfintersecting="ignore")
+                m.check_selfintersecting(mode="ignore")
+            flags.append(bool(m.status_selfintersecting))
+        out.append(flags)
+        if flags == [False, True]:
+            return True, {"seed": seed, "vertices_at_scale_1": p.tolist(), "faces": f.tolist(), "status_selfintersecting_at_scale_1_and_1000": flags}
+    return False, {"status_selfintersecting_at_scale_1_and_1000": out}
 
 
 def _c20_sensor_leaf(key):
@@ -146,9 +197,12 @@ REPLAYS = {
         **{f"non-finite:Sphere:zero-size:{f}": _nonfinite(_sphere0, [[5e-324, 0.0, 0.0], [1e-160, 1e-160, 1e-160]], f) for f in "BH"},
         **{f"non-finite:Cuboid:near-edge:{f}": _cuboid_near_edge(f) for f in "BH"},
         "hang-or-crash:Cylinder:denormal-height": _cylinder_denormal_hang,
+        **{f"non-finite:{cls}:near-vertex:{f}": _near_vertex(cls, f) for cls in ("Triangle", "Tetrahedron", "TriangularMesh") for f in "BH"},
     },
-    "C16": {"status:prism:selfintersection-not-detected": _c16_interpenetrating("prism"),
-            "status:hull:selfintersection-not-detected": _c16_interpenetrating("hull")},
+    "C16": {"status:stella-octangula:selfintersection-not-detected": _c16_selfintersecting("stella-octangula"),
+            "status:two-spikes:selfintersection-not-detected": _c16_selfintersecting("two-spikes"),
+            "status:spike-box-micro:selfintersection-not-detected": _c16_selfintersecting("spike-box-micro"),
+            "status:hull-x1000:valid-mesh-flagged-selfintersecting": _c16_valid_hull_flagged},
     "C20": {**{f"style:sensor:{k}:object-default-shadows-family": _c20_sensor_leaf(k) for k in ("pixel_size", "arrows_x_show", "arrows_y_show", "arrows_z_show")},
             "notation:dict-valued-property-rewritten": _c20_trace_kwargs},
 }
